@@ -406,6 +406,7 @@ func readerSide(c *caseIn, b *net.TCPConn, limit int) readRes {
 		hmust(fs.CloseWrite())
 	}
 	var rr readRes
+	got := 0
 	dcap := c.Dcap
 	if dcap < 1 {
 		dcap = 32768
@@ -436,7 +437,8 @@ func readerSide(c *caseIn, b *net.TCPConn, limit int) readRes {
 			break
 		}
 		rr.reads = append(rr.reads, append([]byte(nil), buf[:n]...))
-		if i > limit {
+		got += n
+		if i > limit || got > limit+1024 { // more reads / bytes than the whole script contains
 			rr.term = "runaway"
 			break
 		}
